@@ -258,6 +258,19 @@ def check_equal(rep, rule, key, where, actual, expected, what, undecided_note=''
             rep.undecided(rule, key, where, what + ': the forms are built from different generators but take the same values at every sampled point of the domain',
                           expected=show(expected, 2, 300), actual=show(actual, 2, 300))
             return 'unknown'
+        if isinstance(a_, Rat) and isinstance(e_, Rat):
+            rd = rounding_only(a_, e_)
+            if rd is not None:
+                digits, best = rd
+                if best is not None and best[0] <= ROUNDING_NOISE:
+                    rep.subtol(rule, key, where, what + ': equal to the reference up to a rounding to %s decimals the reference does not have; at the sampled points of the domain it '
+                               'moves the value by at most %.1e (relative %.1e) - below the noise of evaluating the formula in double precision' % (digits, best[1], best[0]))
+                    return 'equal'
+                rep.violated(rule, key, where, what + ': the value passes through a rounding to %s decimals that the reference formula does not have%s' % (
+                    digits, (': it moves the result by up to %.3g (relative %.1e), e.g. at %s: %.15g instead of %.15g' % (
+                        best[1], best[0], ', '.join('%s=%.5g' % kv for kv in sorted(best[2].items())[:6]), best[3].real, best[4].real)) if best is not None else ''),
+                    expected=show(expected), actual=show(actual))
+                return 'different'
         rep.violated(rule, key, where, what + ': the code computes a different function than the reference formula',
                      expected=show(expected), actual=show(actual))
     else:
@@ -292,6 +305,37 @@ def check_equal(rep, rule, key, where, actual, expected, what, undecided_note=''
         rep.undecided(rule, key, where, what + ': forms differ but not definitely' + why + undecided_note,
                       expected=show(expected, 2, 300), actual=show(actual, 2, 300))
     return r
+
+
+ROUNDING_NOISE = 1e-14     # relative; a few dozen ulps: what evaluating the formulas in double precision moves anyway
+
+
+def rounding_only(a, e):
+    """when `a` differs from `e` only by rnd(x, d) generators (roundings outside the confirmed rounding sites): (digits, numeric effect)"""
+    ds = []
+
+    def f(at):
+        if at.kind == 'fn' and at.name in ('rnd', 'rnd?') and at.args and isinstance(at.args[0], Rat):
+            if at.name == 'rnd':
+                ds.append(at.args[1].as_fraction())
+            else:
+                ds.append(None)
+            return at.args[0]
+        return None
+    try:
+        stripped = alg.map_atoms(a, f)
+    except RecursionError:
+        return None
+    if not ds:
+        return None
+    if alg.decide_equal(stripped, e) != 'equal':
+        return None
+    try:
+        best = alg.max_rel_diff(a, stripped, _DefaultRanges(), trials=8)
+    except RecursionError:
+        best = None
+    known = sorted(set(int(d) for d in ds if d is not None))
+    return ('/'.join(str(d) for d in known) if known and None not in ds else 'n'), best
 
 
 def leaves(v):
@@ -478,6 +522,15 @@ def case_split(actual, expected):
     return 'equal', 'generic case and special inputs %s agree' % ', '.join(notes)
 
 
+RANGE_OVERRIDE = {}
+
+
+def set_ranges(d):
+    """ranges of the property's quantifier for named symbols (witness points and magnitudes of rounding effects are taken there)"""
+    RANGE_OVERRIDE.clear()
+    RANGE_OVERRIDE.update(d)
+
+
 class _DefaultRanges(dict):
     """plausible in-domain ranges by symbol name (witness points only; equality is never concluded from them)"""
 
@@ -485,6 +538,8 @@ class _DefaultRanges(dict):
         return True
 
     def __getitem__(self, k):
+        if k in RANGE_OVERRIDE:
+            return RANGE_OVERRIDE[k]
         n = k.lower()
         if 'inversef' in n:
             return (150.0, 400.0)
